@@ -438,6 +438,7 @@ func VerifC15Marshal(t, state int) {
 	vrt.Assert("C15/marshal/valid-json", zzspec.ValidText(out, true, true, 100))
 	got, ok := zzspec.Flatten(out)
 	vrt.Assert("C15/marshal/is-object", ok)
+	vrt.Cover("marshal-done")
 	want := zzspec.WantLeaves(tbl, state)
 	wi, fbSeen := 0, 0
 	for _, g := range got {
@@ -463,7 +464,6 @@ func VerifC15Marshal(t, state int) {
 	if fb {
 		vrt.Assert("C15/marshal/fallback-member-once", fbSeen == 1)
 	}
-	vrt.Cover("marshal-done")
 }
 
 func zz15Alpha(b, tmpl []byte, alpha string) {
